@@ -118,7 +118,7 @@ func parseUse(line string) useTruth {
 	ne, _ := strconv.Atoi(f[1])
 	nv, _ := strconv.Atoi(f[2])
 	t.specs = strings.Split(f[3], ",")
-	var acc []byte   // bytes of the current response
+	var acc []byte    // bytes of the current response
 	var cur []scanPkg // its packages so far
 	var pendingHO []scanPkg
 	fired := 0
@@ -133,6 +133,7 @@ func parseUse(line string) useTruth {
 			ne++
 		case tok == "+n":
 			nv++
+		case tok == "snd": // a send in mid-response: nothing changes on the receive side
 		case strings.HasPrefix(tok, "h:") || strings.HasPrefix(tok, "H:"):
 			// a header-only packet (H: with the EOM status) is delivered as a package of its own; judged
 			// only between responses, where it counts to the response that follows
@@ -594,6 +595,7 @@ func respTokens(rng *rand.Rand, r []respPkg) []string {
 }
 
 func c03Gen(tier string, rng *rand.Rand, emit func(Case)) {
+	emit = withMidSends(rng, 4, emit)
 	n := 400
 	if tier == "thorough" {
 		n = 4000
@@ -687,16 +689,7 @@ func c11Response(rng *rand.Rand) []respPkg {
 		case 4:
 			var ms [][3]string
 			for j := 0; j < rng.Intn(4); j++ {
-				switch rng.Intn(4) {
-				case 0:
-					ms = append(ms, [3]string{"\x01", "db" + strconv.Itoa(rng.Intn(9)), "master"})
-				case 1:
-					ms = append(ms, [3]string{"\x02", "us_english", ""})
-				case 2:
-					ms = append(ms, [3]string{"\x03", "utf8", "iso_1"})
-				default:
-					ms = append(ms, [3]string{"\x04", strconv.Itoa(packSizes[rng.Intn(len(packSizes))]), "512"})
-				}
+				ms = append(ms, genEnvMember(rng))
 			}
 			r = append(r, rEnv(ms...))
 		case 5:
@@ -723,6 +716,7 @@ func c11Response(rng *rand.Rand) []respPkg {
 }
 
 func c11Gen(tier string, rng *rand.Rand, emit func(Case)) {
+	emit = withMidSends(rng, 4, emit)
 	n := 400
 	if tier == "thorough" {
 		n = 4000
@@ -771,7 +765,7 @@ func init() {
 		FindingKey: func(line, out, clause string) string { return clause },
 		Nontrivial: func(line, out string) bool { return strings.Count(line, " b1:") >= 2 },
 		NoShrink:   true, Timeout: 30 * time.Second,
-		Rule: "histories of 1..4 well-formed responses (EED interleaved, ENVCHANGE, DONE(MORE) result-set ends, trailing DONE with COUNT/PROC/ERROR bits, no DONE at all), each cut randomly into packets, fed to the real Channel.WritePacket and read with the real NextPackageUntil round by round (right after each response, after all of them, or mixed) with callbacks that read to the final DONE, are nil, fail at the j-th package, or stop / return io.EOF early and continue reading. Non-trivial = at least two responses",
+		Rule:        "histories of 1..4 well-formed responses (EED interleaved, ENVCHANGE, DONE(MORE) result-set ends, trailing DONE with COUNT/PROC/ERROR bits, no DONE at all), each cut randomly into packets, fed to the real Channel.WritePacket and read with the real NextPackageUntil round by round (right after each response, after all of them, or mixed) with callbacks that read to the final DONE, are nil, fail at the j-th package, or stop / return io.EOF early and continue reading. Non-trivial = at least two responses",
 		Assumptions: []string{"a DONE with final status is the last package of its response (TDS: it ends the response)", "a round is started only after its response has arrived completely (reads that wait for packets are covered by the Lean model `blocked` and by C14)"},
 	})
 	register(&Prop{
@@ -779,7 +773,24 @@ func init() {
 		FindingKey: func(line, out, clause string) string { return clause },
 		Nontrivial: func(line, out string) bool { return !strings.HasSuffix(out, "H=[]") },
 		NoShrink:   true, Timeout: 30 * time.Second,
-		Rule: "histories of 1..3 responses rich in EED (info / non-info) and ENVCHANGE packages (0..3 members of types database, language, charset, packet size), randomly cut into packets, 0..2 hooks of each kind registered up front and further ones between responses or between the packets of one, read with callbacks that succeed, are nil or fail at the j-th package. Non-trivial = at least one hook call",
+		Rule:        "histories of 1..3 responses rich in EED (info / non-info) and ENVCHANGE packages (0..3 members of types database, language, charset, packet size), randomly cut into packets, 0..2 hooks of each kind registered up front and further ones between responses or between the packets of one, read with callbacks that succeed, are nil or fail at the j-th package. Non-trivial = at least one hook call",
 		Assumptions: []string{"PACKSIZE values are valid sizes (malformed ones: C10)", "a hook is due for the messages parsed after its registration"},
 	})
+}
+
+// genEnvMember draws one ENVCHANGE member: every type the protocol names (and one it does not), the new
+// and the old value independently empty or not — a member whose new value is empty and whose old value
+// is not is as legal as the reverse.
+func genEnvMember(rng *rand.Rand) [3]string {
+	vals := []string{"", "", "master", "db" + strconv.Itoa(rng.Intn(9)), "us_english", "utf8", "iso_1", "x"}
+	switch rng.Intn(6) {
+	case 0:
+		return [3]string{"\x01", "db" + strconv.Itoa(rng.Intn(9)), "master"}
+	case 1:
+		olds := []string{"512", "", "2048", "x"}
+		return [3]string{"\x04", strconv.Itoa(packSizes[rng.Intn(len(packSizes))]), olds[rng.Intn(len(olds))]}
+	default:
+		ty := []string{"\x01", "\x02", "\x03", "\x05", "\x07"}[rng.Intn(5)]
+		return [3]string{ty, vals[rng.Intn(len(vals))], vals[rng.Intn(len(vals))]}
+	}
 }
